@@ -67,6 +67,14 @@ def handle : List String → Option String
       let c0 := Cxn.new bx by_ ex ey
       let (_, outs) := ops.foldl (fun (c, acc) op => let c' := c.step op; (c', acc ++ [showCxn c'])) (c0, [showCxn c0])
       pure (";".intercalate outs)
+  | ["c17.cxnchk", bx, by_, ex, ey, ops] => do
+      let bx ← bx.toInt?; let by_ ← by_.toInt?; let ex ← ex.toInt?; let ey ← ey.toInt?
+      let ops ← if ops == "!" then some [] else (ops.splitOn ",").mapM parseCxnOp
+      let c0 := Cxn.new bx by_ ex ey
+      let (_, outs) := ops.foldl (fun (c, acc) op =>
+        let (c', ok) := c.stepChecked op
+        (c', acc ++ [(if ok then "ok:" else "refused:") ++ showCxn c'])) (c0, [showCxn c0])
+      pure (";".intercalate outs)
   | ["c17.grp", adds] => do
       let adds ← if adds == "!" then some [] else (adds.splitOn ";").mapM parseAdd
       let root : G := .grp ⟨0, 0, 0, 0⟩ ⟨0, 0, 0, 0⟩ []
